@@ -299,6 +299,9 @@ func (e *engine) checkGoDecLine(worker int, raw []byte) error {
 					map[string]interface{}{"api": api, "type": t.String(), "got": describeGo(p.Elem())}))
 				return
 			}
+			if typeHasNumber(ln.T) {
+				continue // the fork's Number is a type of its own: encoding/json sees a plain string type
+			}
 			// the standard library on the same type and text
 			sp := reflect.New(t)
 			sdec := stdjson.NewDecoder(bytes.NewReader(text))
@@ -322,4 +325,26 @@ func (e *engine) checkGoDecLine(worker int, raw []byte) error {
 		e.rep.Sample(map[string]interface{}{"go_type": t.String(), "text": string(text), "spec_err": ln.Err, "spec_value": compactJSON(ln.Want)})
 	}
 	return nil
+}
+
+// typeHasNumber: the type model mentions json.Number anywhere (element types included)
+func typeHasNumber(g interface{}) bool {
+	switch x := g.(type) {
+	case map[string]interface{}:
+		if x["g"] == "number" {
+			return true
+		}
+		for _, v := range x {
+			if typeHasNumber(v) {
+				return true
+			}
+		}
+	case []interface{}:
+		for _, v := range x {
+			if typeHasNumber(v) {
+				return true
+			}
+		}
+	}
+	return false
 }
